@@ -113,6 +113,10 @@ struct RecvCase {
     _writer: Writer<Ext<Tx>>,
     next: u64,
     gone: bool,
+    /// the frame that was lost on the way (offset, length), until it is retransmitted
+    hole: Option<(u64, usize)>,
+    /// a FIN frame has been delivered: nothing is lost after it
+    fin: Option<u64>,
 }
 
 struct SendCase {
@@ -182,7 +186,7 @@ fn new_case(cfg: &[&str]) -> St {
             let (streams, params) = new_streams(1);
             match open_one(&streams, &params, &ws, 2) {
                 Poll::Ready(Ok(Some((sid, (reader, writer))))) => {
-                    Proto::Recv(RecvCase { streams, sid, reader, _writer: writer, next: 0, gone: false })
+                    Proto::Recv(RecvCase { streams, sid, reader, _writer: writer, next: 0, gone: false, hole: None, fin: None })
                 }
                 _ => Proto::Unknown,
             }
@@ -286,7 +290,9 @@ fn step(st: &mut St, op: &Op, _i: usize) -> Obs {
             0
         }
         // ---------------- stream receiver: POLL 0 = Reader::poll_read / NOTIFY 0 len = STREAM frame (next offset),
-        //                  NOTIFY 1 len = the same with FIN / CLOSE 0 = on_conn_error, CLOSE 1 = RESET_STREAM
+        //                  NOTIFY 1 len = the same with FIN, NOTIFY 2 len = that frame is lost (a hole), NOTIFY 3 = it is
+        //                  retransmitted / CLOSE 0 = on_conn_error, CLOSE 1 = RESET_STREAM, CLOSE 2 = RESET_STREAM with a
+        //                  final size beyond the flow-control limit (a connection error)
         (Proto::Recv(c), 0, 1) => match wid(op, 0) {
             Some(0) => {
                 let mut buf = Vec::with_capacity(4096);
@@ -300,26 +306,53 @@ fn step(st: &mut St, op: &Op, _i: usize) -> Obs {
         },
         (Proto::Recv(c), 1, 2) if op.args[1] >= 0 && op.args[1] <= 64 && c.next < 4096 => {
             let len = op.u(1) as usize;
+            if op.args[0] == 2 {
+                // the frame at the next offset is lost on the way: nothing is delivered now
+                if c.hole.is_some() || c.fin.is_some() || len == 0 {
+                    return ws.obs(SKIP);
+                }
+                c.hole = Some((c.next, len));
+                c.next += len as u64;
+                return ws.obs(0);
+            }
             let mut f = StreamFrame::new(c.sid, c.next, len);
             if op.args[0] == 1 {
                 f.set_eos_flag(true);
             } else if op.args[0] != 0 {
                 return ws.obs(SKIP);
             }
-            c.next += len as u64;
             let _ = c.gone;
             match c.streams.recv_frame((f, Bytes::from(vec![7u8; len]))) {
-                Ok(_) => 0,
+                Ok(_) => {
+                    c.next += len as u64;
+                    if op.args[0] == 1 {
+                        c.fin = Some(c.next);
+                    }
+                    0
+                }
                 Err(_) => 1,
             }
         }
+        // NOTIFY 3 = the lost frame is retransmitted
+        (Proto::Recv(c), 1, 1) if op.args[0] == 3 => match c.hole.take() {
+            None => SKIP,
+            Some((off, len)) => {
+                let f = StreamFrame::new(c.sid, off, len);
+                match c.streams.recv_frame((f, Bytes::from(vec![8u8; len]))) {
+                    Ok(_) => 0,
+                    Err(_) => 1,
+                }
+            }
+        },
         (Proto::Recv(c), 2, 1) => match op.args[0] {
             0 => {
                 c.streams.on_conn_error(&conn_error());
                 0
             }
-            1 => {
-                let f = ResetStreamFrame::new(c.sid, VarInt::from_u32(0), VarInt::from_u64(c.next).unwrap());
+            // RESET_STREAM: 1 = final size consistent with what was sent, 2 = beyond the flow-control limit
+            1 | 2 => {
+                let size = if op.args[0] == 1 { c.fin.unwrap_or(c.next) } else { (1 << 20) + 1 + c.next };
+                let f = ResetStreamFrame::new(c.sid, VarInt::from_u32(0), VarInt::from_u64(size).unwrap());
                 c.gone = true;
                 match c.streams.recv_frame(StreamCtlFrame::ResetStream(f)) {
                     Ok(_) => 0,
